@@ -265,7 +265,7 @@ def _runs(ctx, budget):
         return cache[budget]
     rng = ctx.subrng(f"runs{budget}")
     n_serial = ctx.budget(40, 400) * max(1, budget // 4)
-    n_par = ctx.budget(7, 60) * max(1, budget // 4)
+    n_par = ctx.budget(6, 60) * max(1, budget // 4)
     runs = []
     for i in range(n_serial + n_par):
         parallel = i >= n_serial
